@@ -56,13 +56,17 @@ def showPairs (ps : List (Str × V)) : String :=
 def showNames (ns : List Str) : String :=
   " " ++ toString ns.length ++ String.join (ns.map (fun n => " " ++ hex n))
 
+/-- what cif_container_assert_block answers on the handle inside the callback: CIF_OK for a data block, CIF_ARGUMENT_ERROR for a
+    save frame (the model knows which kind each handle is); `~` for a NULL handle -/
+def qKind (c : Option Str) (ab : Nat) : String := match c with | some _ => s!" q:{ab}" | none => " q:~"
+
 def showEv : Ev → String
   | .cifStart h => " @cs " ++ boolStr h
   | .cifEnd h => " @ce " ++ boolStr h
-  | .blockStart c => " @bs " ++ hexOpt c
-  | .blockEnd c => " @be " ++ hexOpt c
-  | .frameStart c => " @fs " ++ hexOpt c
-  | .frameEnd c => " @fe " ++ hexOpt c
+  | .blockStart c => " @bs " ++ hexOpt c ++ qKind c 0
+  | .blockEnd c => " @be " ++ hexOpt c ++ qKind c 0
+  | .frameStart c => " @fs " ++ hexOpt c ++ qKind c 6
+  | .frameEnd c => " @fe " ++ hexOpt c ++ qKind c 6
   | .loopStart ns => " @ls" ++ showNames ns
   | .loopEnd none => " @le ~"
   | .loopEnd (some ns) => " @le" ++ showNames (CifArg.isort CifArg.strLe ns)
